@@ -363,7 +363,7 @@ theorem keepsD_commit_finishOk (g : G) (i : Nat) (t : Txn) :
   have k := finishOk_keeps (commitPoint g i t []) i t
   exact ⟨k.db, k.pver, k.pageOf, k.others, k.hist⟩
 
-theorem stepPlock_ok (g : G) (i : Nat) (t : Txn) (hpc : t.pc = .plock) : StepOk g (stepPlock g i t) i t := by
+theorem stepPlock_ok (g : G) (i : Nat) (t : Txn) (hint : List Nat) (hpc : t.pc = .plock) : StepOk g (stepPlock g i t hint) i t := by
   unfold stepPlock; simp only
   split
   · refine stepOk_of_keeps (keeps_setTxn _ _ _) (Or.inr (Or.inr (Or.inl ?_)))
@@ -521,7 +521,7 @@ theorem step_spec (g : G) (i : Nat) (hint : List Nat) :
   | lget => exact Or.inr (Or.inr (Or.inr ⟨by simp, by simp, by simp, stepLget_ok _ _ _⟩))
   | lset => exact Or.inr (Or.inr (Or.inr ⟨by simp, by simp, by simp, stepLset_ok _ _ _⟩))
   | lverify => exact Or.inr (Or.inr (Or.inr ⟨by simp, by simp, by simp, stepLverify_ok _ _ _ _⟩))
-  | plock => exact Or.inr (Or.inr (Or.inr ⟨by simp, by simp, by simp, stepPlock_ok _ _ _ hpc⟩))
+  | plock => exact Or.inr (Or.inr (Or.inr ⟨by simp, by simp, by simp, stepPlock_ok _ _ _ _ hpc⟩))
   | validate => exact Or.inr (Or.inr (Or.inr ⟨by simp, by simp, by simp, stepValidate_ok _ _ _ hpc⟩))
   | check => exact Or.inr (Or.inr (Or.inr ⟨by simp, by simp, by simp, stepCheck_ok _ _ _ hpc⟩))
   | ldel k => exact Or.inr (Or.inr (Or.inr ⟨by simp, by simp, by simp, stepLdel_ok _ _ _ _⟩))
